@@ -21,6 +21,15 @@ SPEC = {
          'sinks': {'C09_history': 'hist_judge'}, 'n': {'quick': 40, 'thorough': 1200}},
         {'pkg': 'execute', 'src': ['harness/execute/c09_test.go', 'harness/execute/c09h_test.go'], 'test': 'TestVerif_C09_cycles',
          'fakes': True, 'sinks': {'C09_cycles': 'cyc_judge'}, 'n': {'quick': 60, 'thorough': 900}},
+        # the system-level part of C07 (harness/execute/execsys_test.go; described in lib/specs/C07.py 'rule'): cycles of real plugins with
+        # deviating oracles and, in a tenth of the cycles, a destination reader failing for all but the last executed-range query of a chain;
+        # judged by the end-to-end clauses incl. the ground truth 'nothing executed on the destination is reported' (known class 2 = F13e of C07
+        # masks the liveness ground truth only and is not a C09 finding: it is listed as such below)
+        {'pkg': 'execute', 'src': 'harness/execute/execsys_test.go', 'test': 'TestVerif_ExecSys', 'fakes': True,
+         'coq_import': 'ExecSys_check',
+         'sinks': {'ExecSys_cycle_0': 'sys_judge', 'ExecSys_cycle_1': 'sys_judge', 'ExecSys_cycle_2': 'sys_judge',
+                   'ExecSys_cycle_3': 'sys_judge'},
+         'n': {'quick': 160, 'thorough': 4000}},
     ],
     'known': {'1': 'F55'},
     'rule': 'layouts of 1..6 commit reports of one chain, lengths 1..8, adjacent / holes / mixed / near 2^64 / overlapping / '
@@ -91,7 +100,16 @@ SPEC = {
                   'cycle in which it is unexecuted, inside the window, of a live chain and ready - non-landing cannot lose it), '
                   'C09_hist_executed_committed, C09_hist_reader_answer_legal / C09_hist_nonvacuous (non-vacuity). Correspondence of that model with '
                   'long-lived plugins: sink C09_cycles (any memo / leftover state in the Plugin shows up as a model mismatch; cyc_ok turns it into '
-                  'a concrete violating history).',
+                  'a concrete violating history). '
+                  'System level (Model/ExecSys.v = Plugin.Outcome composed from the C07 / C08 models, Proofs/ExecSysP.v): C09_cycle_no_reexecution (a sequence number that every commit '
+                  'report agreed in the GetCommitReports round lists as executed is in no chain report of the cycle); C09_cycle_liveness - the liveness clause proved over one cycle from '
+                  'observation-level hypotheses: quorum f_k+1 for the commit report and for each of its messages, no rival message with a quorum (<= f_k deviating observers), token '
+                  'data of the message ready with a quorum per slot and no observation filing more slots (F13e), fewer than f_dest+1 costly flags, not executed, nonce 0, root '
+                  'reproduced, every pending report well formed, the report fits (F14) => all three rounds succeed and the message is in the execute report, whatever else the '
+                  'deviating oracles send; C09_cycle_liveness_nonvacuous (all hypotheses hold on a concrete cycle with a deviating oracle); C09_cycle_liveness_poisoned_refuted (the '
+                  'well-formedness hypothesis is needed: two faulty oracles of seven, F = 2, file a forged report of chain 1 under the key of a chain with f = 1 - no role check, '
+                  'threshold by filing key - and every later round fails; replay on real plugins: VERIF_XS_PROBE=poison); C09_history_cycle (failed rounds in between commit nothing: '
+                  'the cycle theorems apply to every Filter round of every history). F55 stays outside (observations are inputs)',
     'level_note': 'Trusted: Coq kernel, hand-written model, differential harness. No axioms.',
     'modelled': 'computeRanges, groupByChainSelector, filterOutExecutedMessages, getPendingExecutedReports, and (for the cycle / liveness theorems) the report builder of Model/ExecReport.v; the reader is an input. '
                 'History level: getCommitReportsObservation (fetchFrom from the current clock, curse gate, known non-cursed sources), the pending filter, the candidate set of the Filter round under everything-fits conditions, selectReport\'s still-pending rule; the destination (off-ramp commit / execute semantics) is a step function',
